@@ -426,6 +426,37 @@ def run(tier, seed, replay):
                 raise
             except Exception as e:
                 v(f"raises:reuse:{method}", f"{type(e).__name__}: {e}"[:200])
+        # one solver object propagating operators handed over in different memory orders and storage formats, one after the
+        # other: each answer is exp(-iHt) times the operator it was given
+        Hc_ = H + 0.3j * (qutip.Qobj(np.triu(H.full(), 1)) - qutip.Qobj(np.triu(H.full(), 1)).dag())
+        Um = rng.standard_normal((d, d)) + 1j * rng.standard_normal((d, d))
+        forms_ = {"identity, Fortran order": qutip.Qobj(qutip.data.Dense(np.asfortranarray(np.eye(d, dtype=complex)), copy=False)),
+                  "generic, C order": qutip.Qobj(np.ascontiguousarray(Um)), "generic, Fortran order": qutip.Qobj(qutip.data.Dense(np.asfortranarray(Um), copy=False)),
+                  "generic, CSR": qutip.Qobj(Um).to("csr"), "identity, C order": qutip.Qobj(np.ascontiguousarray(np.eye(d, dtype=complex)))}
+        for method in ("vern7", "vern9", "adams", "dop853", "diag"):
+            o = {"method": method, "store_states": True, "progress_bar": ""}
+            if method != "diag":
+                o.update(atol=1e-10, rtol=1e-8, nsteps=100000)
+            try:
+                with warnings.catch_warnings():
+                    warnings.simplefilter("ignore")
+                    with core.time_limit(240):
+                        s_ = qutip.SESolver(Hc_, options=o)
+                        order_ = list(forms_)
+                        rng.shuffle(order_)
+                        for nm_ in order_ + order_[:2]:
+                            got_ = s_.run(forms_[nm_], [0, 0.7]).states[-1].full()
+                            want_ = sla.expm(-1j * Hc_.full() * 0.7) @ forms_[nm_].full()
+                            rep.evaluations += 1
+                            rep.count("reuse-operator-forms/" + method)
+                            if np.abs(got_ - want_).max() > 2e-6 * (1 + np.abs(want_).max()):
+                                v(f"reuse-operator-forms:{method}", f"SESolver({method}) used for operators in the forms {order_}, one after the other: for the operator given as '{nm_}' the result differs from exp(-iHt) U0 by {np.abs(got_ - want_).max():.2e}", {"method": method, "dim": d, "form": nm_})
+                                break
+            except core.CaseTimeout:
+                raise
+            except Exception as e:
+                if type(e).__name__ != "IntegratorException":
+                    v(f"raises:reuse-operator-forms:{method}", f"{type(e).__name__}: {e}"[:200])
     # Krylov with a subspace smaller than the system: reuse after a state inside an invariant subspace
     for _ in range(2 if tier == "quick" else 8):
         d = int(rng.choice([6, 8, 10]))
